@@ -638,7 +638,7 @@ def compare(impl, model, case):
     if kind == "segpoly":
         for i, (a, b) in enumerate(zip(impl, model)):
             r = _cmp_num(a["d2"], b["d2"], f"[{i}].d2", 1e-9, 1e-9)
-            if not r and b["branch"] in (0, 1):
+            if not r and b["branch"] == 0:  # unique only there: any common point is a valid answer in branch 1, ties in branch 2
                 r = _cmp_vec(a["cp"], b["cp"], f"[{i}].cp(branch {b['branch']})", 1e-8)
             if r:
                 return r
